@@ -51,10 +51,11 @@ fn gen(stream: &str, seed: u64, n: u64) -> Vec<String> {
                 "srvk" => srvk::gen(&mut r, i),
                 "np" => np::gen(&mut r, i),
                 "e2e" => e2e::gen(&mut r, i),
+                "e2es" => format!("Ye2e {}", e2e::gen_signal(&mut r, i)),
                 "poolt" => { let b = pool::gen_timed(&mut r, i); if b.starts_with('X') { b } else { format!("X{b}") } }
                 _ => panic!("unknown stream {stream}"),
             };
-            if let Some(b) = body.strip_prefix('X') { format!("pool {b}") } else { format!("{stream} {body}") }
+            if let Some(b) = body.strip_prefix('X') { format!("pool {b}") } else if let Some(b) = body.strip_prefix('Y') { b.to_string() } else { format!("{stream} {body}") }
         })
         .collect()
 }
